@@ -159,6 +159,17 @@ def ep_family():
                                                 cells[ek] = opk
                                                 break
                                         out.append(fen(cells, "w" if white else "b", T))
+                                        # the DISCOVERING variant: the ENEMY king on one side of the line, the MOVER's own
+                                        # slider on the other — the capture (leaving P, removing V, landing on T) opens or
+                                        # closes a line to the enemy king: discovered / double checks by en passant
+                                        cells = dict(base)
+                                        cells[ks] = opk
+                                        cells[ss] = sl.swapcase()
+                                        for mk in (63, 56, 7, 0, 60, 4, 32, 39):
+                                            if mk not in cells and mk != T and abs(mk % 8 - kf) + abs(mk // 8 - kr) > 2:
+                                                cells[mk] = myk
+                                                break
+                                        out.append(fen(cells, "w" if white else "b", T))
     return sorted(set(out))
 
 
@@ -1192,8 +1203,15 @@ def c10(res, tier, seed, deep):
         for _ in range(rnd.randrange(0, 4)):
             order.insert(rnd.randrange(len(order) + 1), "k")
         reqs.append(f"attacks {''.join(order)} {f}")
+    # positions REACHED BY A MOVE: the successor object built by make-move (never re-read from FEN) must answer the check
+    # queries like the rules do — every legal move of generated positions and of the en-passant family (captures that
+    # open a second line)
+    epf = ep_family_legal()
+    if not (tier == "thorough" or deep):
+        epf = random.Random(seed + 8).sample(epf, min(len(epf), 1200))
+    reqs += ["checkafter " + f for f in epf + fens[: (6000 if tier == "thorough" else 1500)]]
     wee.compare_batch(res, reqs, SPEC_VIEWS)
-    return "legal positions (as C01) and arbitrary placements; per position a random order of the seven queries (all/pawn attacks and check for both colours, State::is_check) with repeats and clones of the position object interleaved; distinct = distinct request lines"
+    return "legal positions (as C01) and arbitrary placements; successor objects of every legal move of generated positions and of the systematic en-passant family (State::is_check / Board::is_check on the object make-move built); per position a random order of the seven queries (all/pawn attacks and check for both colours, State::is_check) with repeats and clones of the position object interleaved; distinct = distinct request lines"
 
 
 def rights_variants(fen, rnd):
@@ -1220,11 +1238,21 @@ def c11(res, tier, seed, deep):
         for h, fm in ((0, 1), (99, 50), (2 ** 64 - 1, 2 ** 64 - 1), (2 ** 63, 12345678901234567890 % 2 ** 64), (100, 2 ** 32)):
             extra.append(" ".join(p[:4] + [str(h), str(fm)]))
     allf = fens + extra
-    reqs = [f"fen {hexs(f)}" for f in allf]
+    # the reader must not carry anything from one call to the next: malformed strings (regex-passing but over-long
+    # placements, wrong field counts, digit floods …: the C14 mutation operators) are interleaved with the valid ones,
+    # all read by ONE thread of the real code in this order
+    mixed = []
+    for k, f in enumerate(allf):
+        mixed.append(f)
+        if k % 5 == 0:
+            g = rnd.choice(allf)
+            mixed.append(rnd.choice([mutate_fen(g, rnd), overlong_placement(g, rnd)]))
+    reqs = [f"fen {hexs(f)}" for f in mixed]
+    res.tags["malformed_interleaved"] = len(mixed) - len(allf)
     wee.compare_batch(res, reqs, SPEC_VIEWS)
     # same position ⇒ same moves: parse∘write is the identity on FEN text, so moves/hash/eval agree
     # trivially through the same parser; checked explicitly on a sample through `moves`
-    return "canonical FEN of positions reached by play (spec writer, independent of the code), all subsets of the castling rights held, en-passant squares on both ranks (from play), extreme counters up to 2^64-1; the spec accepts exactly canonical strings and demands character-for-character reproduction"
+    return "canonical FEN of positions reached by play (spec writer, independent of the code), all subsets of the castling rights held, en-passant squares on both ranks (from play), extreme counters up to 2^64-1, interleaved with malformed strings read by the same thread (no state may leak from one read to the next); the spec accepts exactly canonical strings and demands character-for-character reproduction"
 
 
 def c12(res, tier, seed, deep):
@@ -1241,6 +1269,17 @@ def c12(res, tier, seed, deep):
     res.tags["negative_cases"] = neg
     res.tags["lan_cases"] = sum(1 for r in reqs if r.startswith("lan"))
     return "for every legal move of every generated position: every admissible SAN spelling from the independent SAN writer (4 disambiguations x promotion suffix forms x optional check marks, castles) must select exactly that move (first match and filter); every pseudo-legal-but-illegal move, fully disambiguated, must select nothing; LAN text of every legal move"
+
+
+def overlong_placement(f, rnd):
+    """a placement the FEN regex accepts but that describes more than 64 squares (or more than 8 in a rank)"""
+    parts = f.split(" ")
+    rows = parts[0].split("/")
+    k = rnd.randrange(8)
+    rows[k] = rows[k] + rnd.choice(["R", "p", "8", "NN", "1q1", "44"])
+    if rnd.random() < 0.3:
+        rows[7] = rows[7] + "RNBQKBNR"
+    return " ".join(["/".join(rows)] + parts[1:])
 
 
 def mutate_fen(f, rnd):
